@@ -399,8 +399,21 @@ def disassemble(byte_strings, arch):
 
 
 # ------------------------------------------------------------------ whitelist: disassembled instruction -> minst (validator language)
+# The whitelist itself (mnemonic tables, operand-shape conditions, widths, attribution of memory operands to the incoming / destination
+# area, tracking of the SA register) is coq/theories/CallConv/DecodeModel.v, proved against a reference ISA semantics in DecodeProofs.v and
+# extracted into the model driver (command D).  Python only hands over what llvm-mc printed.
 class Unmodelled(Exception):
     pass
+
+
+ALIGNED = {"movaps", "movapd", "movdqa", "vmovaps", "vmovapd", "vmovdqa", "vmovdqa32", "vmovdqa64"}
+# the next three belong to the SIMULATOR below (its own, independent reading of the instructions)
+VEC_FULL = {"movaps", "movups", "movapd", "movupd", "movdqa", "movdqu", "vmovaps", "vmovups", "vmovapd", "vmovupd", "vmovdqa", "vmovdqu",
+            "vmovdqa32", "vmovdqu32", "vmovdqa64", "vmovdqu64"}
+
+
+def opw(op):
+    return op[3] if op[0] == "r" else op[1]
 
 
 def loc_of_op(op, S, is_dst):
@@ -419,120 +432,52 @@ def loc_of_op(op, S, is_dst):
     raise Unmodelled("operand %r" % (op,))
 
 
-ALIGNED = {"movaps", "movapd", "movdqa", "vmovaps", "vmovapd", "vmovdqa", "vmovdqa32", "vmovdqa64"}
-VEC_FULL = {"movaps", "movups", "movapd", "movupd", "movdqa", "movdqu", "vmovaps", "vmovups", "vmovapd", "vmovupd", "vmovdqa", "vmovdqu",
-            "vmovdqa32", "vmovdqu32", "vmovdqa64", "vmovdqu64"}
+def op_txt(op):
+    if op[0] == "r": return "r %d %d %d" % (op[1], op[2], op[3])
+    if op[0] == "m": return "m %d %d %d" % (op[1], op[2], op[3])
+    return "?"
 
 
-def opw(op):
-    return op[3] if op[0] == "r" else op[1]
+def decode_cmd(S):
+    """the D command for one emitted sequence: frame facts + the printed instructions"""
+    parts = ["D", 1 if S.get("sp") == 31 else 0, S["sp"], S["sareg"], S["saoff_sp"], S["saoff_sa"], 1 if S.get("da") else 0, len(S["insts"])]
+    for m, ops in S["insts"]:
+        parts += [m, len(ops)] + [op_txt(o) for o in ops]
+    return " ".join(str(x) for x in parts)
 
 
-def to_minst(inst, S):
-    """one instruction -> ('X', dst, src, e, n, w, wz) | ('G', a, b, w, wz)"""
-    m, ops = inst
-    if len(ops) != 2: raise Unmodelled("%s with %d operands" % (m, len(ops)))
-    d, s = ops
-    if d[0] == "?" or s[0] == "?": raise Unmodelled("%s operand" % m)
-    if S.get("sp") == 31:
-        return to_minst_a64(m, d, s, S)
-    if m == "xchg":
-        if d[0] != "r" or s[0] != "r" or d[1] != 0 or s[1] != 0 or d[3] != s[3] or d[3] < 32: raise Unmodelled("xchg operands")
-        return ("G", loc_of_op(d, S, True), loc_of_op(s, S, False), d[3], 64)
-    dl = loc_of_op(d, S, True)
-    sl = loc_of_op(s, S, False)
-    dw, sw = opw(d), opw(s)
-    dgrp = d[1] if d[0] == "r" else None
-    sgrp = s[1] if s[0] == "r" else None
-
-    def gpz(w):   # zero-extension boundary of a GP write of w bits
-        return 64 if w >= 32 else w
-    if m == "mov":
-        if d[0] == "m":
-            if sgrp != 0: raise Unmodelled("mov store")
-            return ("X", dl, sl, "Z", sw, sw, sw)
-        if dgrp != 0 or (s[0] == "r" and (sgrp != 0 or sw != dw)): raise Unmodelled("mov operands")
-        return ("X", dl, sl, "Z", dw, dw, gpz(dw))
-    if m in ("movzx", "movsx", "movsxd"):
-        if dgrp != 0 or sw == 0 or not (sw < dw): raise Unmodelled("%s widths %d -> %d" % (m, sw, dw))
-        return ("X", dl, sl, "Z" if m == "movzx" else "S", sw, dw, gpz(dw))
-    vex = m.startswith("v")
-    if m in VEC_FULL:
-        if d[0] == "m":
-            if sgrp != 1: raise Unmodelled(m)
-            return ("X", dl, sl, "Z", sw, sw, sw)
-        if dgrp != 1: raise Unmodelled(m)
-        return ("X", dl, sl, "Z", dw, dw, 512 if vex else dw)
-    if m in ("movd", "vmovd", "movq", "vmovq"):
-        n = 32 if m.endswith("d") else 64
-        if d[0] == "m": return ("X", dl, sl, "Z", n, n, n)
-        if dgrp == 1: return ("X", dl, sl, "Z", n, n, 512 if vex else 128)
-        if dgrp in (0, 3): return ("X", dl, sl, "Z", n, n, 64)
-        raise Unmodelled(m)
-    if m in ("movss", "vmovss", "movsd", "vmovsd"):
-        n = 32 if m.endswith("ss") else 64
-        if d[0] == "m": return ("X", dl, sl, "Z", n, n, n)
-        if s[0] == "m": return ("X", dl, sl, "Z", n, n, 512 if vex else 128)
-        raise Unmodelled(m + " reg,reg")
-    if m in ("kmovb", "kmovw", "kmovd", "kmovq"):
-        n = {"b": 8, "w": 16, "d": 32, "q": 64}[m[-1]]
-        if d[0] == "m": return ("X", dl, sl, "Z", n, n, n)
-        return ("X", dl, sl, "Z", n, n, 64)
-    if m == "movq2dq": return ("X", dl, sl, "Z", 64, 64, 128)
-    if m == "movdq2q": return ("X", dl, sl, "Z", 64, 64, 64)
-    raise Unmodelled(m)
+def parse_loc(f):
+    return (f[0], int(f[1]), int(f[2]))
 
 
-A64_LOADS = {"ldr": None, "ldrb": ("Z", 8), "ldrh": ("Z", 16), "ldrsb": ("S", 8), "ldrsh": ("S", 16), "ldrsw": ("S", 32), "ldur": None}
-A64_STORES = {"str": None, "strb": 8, "strh": 16, "stur": None}
+def parse_minsts(txt):
+    out = []
+    for part in txt.split(" ; "):
+        f = part.split()
+        if not f: continue
+        if f[0] == "X":
+            out.append(("X", parse_loc(f[1:4]), parse_loc(f[4:7]), f[7], int(f[8]), int(f[9]), int(f[10])))
+        else:
+            out.append(("G", parse_loc(f[1:4]), parse_loc(f[4:7]), int(f[7]), int(f[8])))
+    return out
 
 
-def to_minst_a64(m, d, s, S):
-    """AArch64 whitelist: mov (GP and vector), fmov, [su]xt[bhw], ldr* / str*.  A 32-bit GP write zeroes the upper half; scalar FP / vector
-    writes zero the rest of the 128-bit register."""
-    if m in A64_STORES:        # str Rt, [mem] : operand 0 is the SOURCE register
-        if d[0] != "r" or s[0] != "m": raise Unmodelled(m)
-        n = A64_STORES[m] or d[3]
-        return ("X", loc_of_op(s, S, True), loc_of_op(d, S, False), "Z", n, n, n)
-    if m in A64_LOADS:
-        if d[0] != "r" or s[0] != "m": raise Unmodelled(m)
-        e, n = A64_LOADS[m] or ("Z", d[3])
-        w = d[3] if d[1] == 0 else n
-        return ("X", loc_of_op(d, S, True), loc_of_op(s, S, False), e, n, max(w, n), 64 if d[1] == 0 else 128)
-    if d[0] != "r" or s[0] != "r": raise Unmodelled(m)
-    dl, sl = loc_of_op(d, S, True), loc_of_op(s, S, False)
-    if m == "mov" and d[1] == 0 and s[1] == 0 and d[3] == s[3] and d[2] < 31 and s[2] < 31:
-        return ("X", dl, sl, "Z", d[3], d[3], 64)
-    if m in ("mov", "fmov") and d[1] == 1 and s[1] == 1 and d[3] == s[3]:
-        return ("X", dl, sl, "Z", d[3], d[3], 128)
-    if m in ("sxtb", "sxth", "sxtw", "uxtb", "uxth") and d[1] == 0 and s[1] == 0:
-        n = {"b": 8, "h": 16, "w": 32}[m[-1]]
-        return ("X", dl, sl, "S" if m[0] == "s" else "Z", n, d[3], 64)
-    raise Unmodelled(m)
+def decode_all(model, Ss, run_lines):
+    """run the verified decoder over every emitted sequence (one batch); S['minsts'] = list of minst | S['unmodelled'] = reason"""
+    idx = [i for i, S in enumerate(Ss) if S.get("status") == "ok" and "insts" in S and "sp" in S]
+    ans = run_lines(model, [decode_cmd(Ss[i]) for i in idx])
+    for i, a in zip(idx, ans):
+        S = Ss[i]
+        if a.startswith("D ok"):
+            S["minsts"] = parse_minsts(a[4:].strip())
+        else:
+            S["unmodelled"] = a[6:].strip() or "refused by the whitelist"
 
 
 def translate(S):
-    """whole sequence -> list of minst.  The register that holds the address of the incoming stack arguments (SA register) may itself be moved
-    or swapped by the shuffle: follow it through GP mov / xchg so that loads are attributed to the incoming area whatever register carries
-    the pointer at that point."""
-    sa = {S["sareg"]} if S["sareg"] != S["sp"] else set()
-    out = []
-    for (m, ops) in S["insts"]:
-        S2 = S
-        if len(ops) == 2 and ops[1][0] == "m" and ops[1][2] in sa and ops[1][2] != S["sareg"]:
-            S2 = dict(S); S2["sareg"] = ops[1][2]
-        out.append(to_minst((m, ops), S2))
-        if len(ops) == 2 and ops[0][0] == "r" and ops[0][1] == 0:
-            d, s_ = ops
-            if m == "xchg" and s_[0] == "r" and s_[1] == 0:
-                a, b = d[2] in sa, s_[2] in sa
-                if a != b:
-                    sa.discard(d[2] if a else s_[2]); sa.add(s_[2] if a else d[2])
-            elif m == "mov" and s_[0] == "r" and s_[1] == 0 and s_[2] in sa and d[3] >= 32:
-                sa.add(d[2])
-            else:
-                sa.discard(d[2])
-    return out
+    """whole sequence -> list of minst (the verified decoder's answer, see decode_all)"""
+    if "minsts" in S: return S["minsts"]
+    raise Unmodelled(S.get("unmodelled", "not decoded"))
 
 
 def loc_txt(l):
